@@ -15,6 +15,7 @@ pub mod c15;
 pub mod c16;
 pub mod c17;
 pub mod c18;
+pub mod c19;
 
 pub fn property(id: &str, tier: Tier) -> Option<PropertyDef> {
 	match id {
@@ -22,6 +23,7 @@ pub fn property(id: &str, tier: Tier) -> Option<PropertyDef> {
 		"C16" => Some(c16::def(tier)),
 		"C17" => Some(c17::def(tier)),
 		"C18" => Some(c18::def(tier)),
+		"C19" => Some(c19::def(tier)),
 		"C15" => Some(c15::def(tier)),
 		"C14" => Some(c14::def(tier)),
 		"C12" => Some(c12::def(tier)),
@@ -37,4 +39,4 @@ pub fn property(id: &str, tier: Tier) -> Option<PropertyDef> {
 	}
 }
 
-pub const ALL: &[&str] = &["C01", "C02", "C03", "C04", "C08", "C09", "C10", "C11", "C12", "C13", "C14", "C15", "C16", "C17", "C18"];
+pub const ALL: &[&str] = &["C01", "C02", "C03", "C04", "C08", "C09", "C10", "C11", "C12", "C13", "C14", "C15", "C16", "C17", "C18", "C19"];
